@@ -8,6 +8,7 @@ import (
 	"errors"
 	"flag"
 	"fmt"
+	"io"
 	"math/big"
 	"net"
 	"net/http"
@@ -19,6 +20,7 @@ import (
 	"sync"
 	"time"
 
+	"github.com/nuetzliches/hookaido/internal/app"
 	"github.com/nuetzliches/hookaido/internal/dispatcher"
 	"github.com/nuetzliches/hookaido/internal/queue"
 )
@@ -420,8 +422,141 @@ func cmdEgress(args []string) error {
 		client.CloseIdleConnections()
 		emit(map[string]interface{}{"k": "redirect", "policy": policyJSON(p), "hops": jh, "arrived": arrived, "action": actStr(a), "urls": urls, "err": rec.lastErr, "status": rec.lastStatus})
 	}
+	// (e) one deliverer, the same URL delivered to several times while the resolver's answer (and so the verdict) changes:
+	// the policy is enforced on every delivery, with the addresses the host resolves to at that time
+	for i := 0; i < *nr; i++ {
+		p := genPolicy(r)
+		p.HTTPSOnly = false
+		if r.chance(70) {
+			p.DNSRebindProtection = true
+		}
+		host := pick(r, hopHosts[:8])
+		raw := "http://" + host + pick(r, []string{"", ":8080"}) + "/hook"
+		phases := make([][]net.IP, 2+r.intn(2))
+		for k := range phases {
+			phases[k] = genAnswers(r)
+			if k == 0 && r.chance(70) {
+				phases[k] = []net.IP{net.ParseIP(pick(r, publicIPs))}
+			}
+		}
+		phase, sentN := 0, 0
+		client := &http.Client{Transport: roundTripFunc(func(req *http.Request) (*http.Response, error) {
+			sentN++
+			return &http.Response{StatusCode: 200, Body: io.NopCloser(strings.NewReader("")), Header: http.Header{}, Request: req}, nil
+		})}
+		hd := dispatcher.NewHTTPDeliverer(client, p)
+		hd.Resolver = dispatcher.VerifLookup(func(ctx context.Context, h string) ([]net.IPAddr, error) {
+			a := phases[phase]
+			if a == nil {
+				return nil, fmt.Errorf("lookup %s: server misbehaving", h)
+			}
+			out := make([]net.IPAddr, 0, len(a))
+			for _, ip := range a {
+				out = append(out, net.IPAddr{IP: ip})
+			}
+			return out, nil
+		})
+		u, _ := url.Parse(raw)
+		for phase = 0; phase < len(phases); phase++ {
+			sentN = 0
+			res := hd.Deliver(ctx, dispatcher.Delivery{ID: "e", Target: raw, URL: raw, Body: []byte("x")})
+			got := verdictOf(res.Err)
+			if sentN > 0 {
+				got = "allowed" // a request left the deliverer, whatever it reports
+			}
+			emit(map[string]interface{}{"k": "check", "via": "deliver", "delivery": phase + 1, "raw": raw, "policy": policyJSON(p), "scheme": u.Scheme, "hostname": u.Hostname(),
+				"literal": literalOf(u.Hostname()), "answers": answersJSON(phases[phase]), "got": got})
+		}
+	}
+	// (f) the policy as the running gateway builds it: rule TEXTS in a configuration file -> real parser / compiler ->
+	// run()'s mapping -> real check. The expected rule of a text is derived here independently (stdlib netip): a prefix is
+	// that prefix, a bare address is exactly that address, "*.d" covers sub-domains of d only, anything else is that host.
+	ruleTexts := []string{"example.com", "*.example.com", "*", "Example.COM", "a.example.com", "internal.corp", "*.internal.corp", "evil.test", "10.0.0.0/8", "93.184.216.0/24",
+		"8.8.8.8", "10.0.0.5", "2606:4700::1111", "2606:4700::/32", "2001:db8::1", "::ffff:10.0.0.1", "fc00::/7", "::1", "192.168.1.1", "0.0.0.0/0", "fd12:3456::1", "198.51.100.7"}
+	expectRule := func(t string) dispatcher.EgressRule {
+		if pfx, err := netip.ParsePrefix(t); err == nil {
+			return dispatcher.EgressRule{IsCIDR: true, CIDR: pfx}
+		}
+		if a, err := netip.ParseAddr(t); err == nil {
+			return dispatcher.EgressRule{IsCIDR: true, CIDR: netip.PrefixFrom(a, a.BitLen())}
+		}
+		if strings.HasPrefix(t, "*.") {
+			return dispatcher.EgressRule{Host: strings.ToLower(t[2:]), Subdomains: true}
+		}
+		return dispatcher.EgressRule{Host: strings.ToLower(t)}
+	}
+	nearIPs := []string{"2606:4700::1", "2606:4700:1::1", "2606:4701::1111", "2001:db8::2", "2001:db8:1::1", "8.8.8.9", "10.0.0.6", "198.51.100.8", "fd12:3456::2", "fd12:3457::1", "192.168.1.2"}
+	for i := 0; i < *n/4; i++ {
+		var allow, deny []string
+		if r.chance(60) {
+			for k := 0; k < 1+r.intn(2); k++ {
+				allow = append(allow, pick(r, ruleTexts))
+			}
+		}
+		if r.chance(50) {
+			for k := 0; k < 1+r.intn(2); k++ {
+				deny = append(deny, pick(r, ruleTexts))
+			}
+		}
+		onoff := func(b bool) string {
+			if b {
+				return "on"
+			}
+			return "off"
+		}
+		want := dispatcher.EgressPolicy{HTTPSOnly: r.chance(15), Redirects: r.chance(50), DNSRebindProtection: r.chance(40)}
+		var b strings.Builder
+		b.WriteString("pull_api {\n  auth token raw:t\n}\ndefaults {\n  egress {\n")
+		for _, t := range allow {
+			fmt.Fprintf(&b, "    allow \"%s\"\n", t)
+			want.Allow = append(want.Allow, expectRule(t))
+		}
+		for _, t := range deny {
+			fmt.Fprintf(&b, "    deny \"%s\"\n", t)
+			want.Deny = append(want.Deny, expectRule(t))
+		}
+		fmt.Fprintf(&b, "    https_only %s\n    redirects %s\n    dns_rebind_protection %s\n  }\n}\n/d {\n  deliver \"https://t.example.com/x\" {\n  }\n}\n",
+			onoff(want.HTTPSOnly), onoff(want.Redirects), onoff(want.DNSRebindProtection))
+		compiled, err := compileText(b.String())
+		if err != nil {
+			emit(map[string]interface{}{"k": "cfgerror", "stage": "egress-config", "err": err.Error(), "text": b.String()})
+			continue
+		}
+		ep := compiled.Defaults.EgressPolicy
+		impl := dispatcher.EgressPolicy{HTTPSOnly: ep.HTTPSOnly, Redirects: ep.Redirects, DNSRebindProtection: ep.DNSRebindProtection,
+			Allow: app.VerifMapEgressRules(ep.Allow), Deny: app.VerifMapEgressRules(ep.Deny)}
+		for q := 0; q < 6; q++ {
+			h := pick(r, hostForms)
+			if r.chance(35) {
+				ip := pick(r, append(append([]string{}, nearIPs...), publicIPs...))
+				if strings.Contains(ip, ":") {
+					h = "[" + ip + "]"
+				} else {
+					h = ip
+				}
+			}
+			raw := pick(r, []string{"https", "https", "http"}) + "://" + h + pick(r, []string{"", ":8443", "/hook"})
+			answers := genAnswers(r)
+			if r.chance(50) {
+				answers = []net.IP{net.ParseIP(pick(r, append(append([]string{}, nearIPs...), publicIPs...)))}
+			}
+			stub := &stubResolver{ans: map[string][][]net.IP{}}
+			u, perr := url.Parse(raw)
+			if perr != nil {
+				continue
+			}
+			stub.ans[normHostGo(u.Hostname())] = [][]net.IP{answers}
+			err := dispatcher.VerifCheckEgressPolicy(ctx, raw, impl, stub.lookup)
+			emit(map[string]interface{}{"k": "check", "via": "config", "allowText": allow, "denyText": deny, "raw": raw, "policy": policyJSON(want), "scheme": u.Scheme, "hostname": u.Hostname(),
+				"literal": literalOf(u.Hostname()), "answers": answersJSON(answers), "got": verdictOf(err)})
+		}
+	}
 	return nil
 }
+
+type roundTripFunc func(*http.Request) (*http.Response, error)
+
+func (f roundTripFunc) RoundTrip(r *http.Request) (*http.Response, error) { return f(r) }
 
 type recDeliverer struct {
 	inner      dispatcher.Deliverer
